@@ -2,6 +2,7 @@
 
 Every random choice is a Hypothesis draw.  `profile` biases the generator towards the features a property needs.
 """
+import json
 from hypothesis import strategies as st
 
 DTS = [1.0, 0.5, 0.25, 0.125, 0.1, 0.2, 1 / 3, 1 / 12, 1 / 52, 0.05, 0.3]
@@ -310,11 +311,17 @@ def model_specs(draw, profile=None):
         if len(members) >= 2:
             if len(members) == 3 and g.coin(0.5):
                 jn = "jg%d" % m
-                add_comp(jn, "junc", db=False)
+                add_comp(jn, "junc", db=g.coin(0.3) if p["allow_junction_init"] else False)
                 group_of[jn] = dpar
                 attach(members[0], jn, par_for_edge(members[0], allow_reuse=False))
-                for tgt in members[1:]:
-                    attach(jn, tgt, new_par("proportion"))
+                if g.coin(0.4):
+                    # residual form: stated proportion to one member, the remainder ('>') to the other
+                    attach(jn, members[1], new_par("proportion"))
+                    links[(jn, members[2])] = ">"
+                    g.labels.add("timed:in-group-residual-junction")
+                else:
+                    for tgt in members[1:]:
+                        attach(jn, tgt, new_par("proportion"))
                 g.labels.add("timed:in-group-junction")
                 if g.coin(0.5):
                     # a second time-preserving inflow into the in-group junction (from another member of the group)
@@ -573,6 +580,16 @@ def model_specs(draw, profile=None):
             g.labels.add("data:y-factor")
         if g.coin(p["p_yfactor"] / 2) and not d["timed"]:
             data["myf"][name] = g.pick([0.5, 2.0, 1.1])
+    # some parameters are entered as a single "All" row of the databook table (identical data for every population)
+    data["all_rows"] = []
+    if n_pops >= 2:
+        for name, d in pars.items():
+            if d["db"] and not d["timed"] and name in data["q"] and g.coin(p.get("p_all_row", 0.15)):
+                first = pops[0]
+                for pop in pops[1:]:
+                    data["q"][name][pop] = json.loads(json.dumps(data["q"][name][first]))
+                data["all_rows"].append(name)
+                g.labels.add("data:all-row")
     # every plain junction gets at least one strictly positive constant proportion (C01 domain)
     for jn in [c["name"] for c in spec["comps"] if c["kind"] == "junc"]:
         outs = [v for (a, b), v in links.items() if a == jn and v != ">"]
@@ -584,6 +601,8 @@ def model_specs(draw, profile=None):
             if d["fn"] is None:
                 data["q"][k] = {pop: {"a": g.fl(0.05, 1.5)} for pop in pops}
                 data["yf"].pop(k, None)
+                if k in data["all_rows"]:
+                    data["all_rows"].remove(k)
     # transfers
     if n_pops >= 2 and g.coin(p["p_transfer"]):
         n_tr = draw(st.integers(1, 2))
